@@ -1,4 +1,5 @@
 pub mod c05;
+pub mod c06;
 pub mod c13;
 pub mod c18;
 pub mod c19;
